@@ -300,6 +300,24 @@ def run(ctx):
                 out += candidates(hist, n, int(tt[3]), depth + 1, latent_only=synced)
         return out
 
+    LATENT = ("remove_higher_space_dimensions",)
+
+    def full_lineage(hist, line, slot, depth=0):
+        out = []
+        for (n, t, cs) in lineage(hist, line, slot):
+            if not t.startswith("op "):
+                continue
+            out.append((n, t))
+            tt = t.split()
+            if tt[2] in BINARY and depth < 3 and tt[3].isdigit() and int(tt[3]) != cs:
+                out += full_lineage(hist, n, int(tt[3]), depth + 1)
+        return out
+
+    def latent(hist, line, slot):
+        """operations on the whole lineage whose known defect is a latent corruption of the representation
+        (the descriptions still print a correct set, later operations or queries go wrong)"""
+        return [(n, t) for (n, t) in full_lineage(hist, line, slot) if api_of(t) in LATENT]
+
     def producer_of_empty(hist, ln, s):
         """an empty reference grid stays empty under every mutator: the operations back to the one that produced it"""
         chain = []
@@ -361,6 +379,7 @@ def run(ctx):
         if ln in blame:
             cands.append(blame[ln])
         cands += candidates(hist, ln, s)
+        cands += latent(hist, ln, s)
         lo = last_op(hist, ln, s)
         if lo is not None:
             cands.append(lo)
@@ -427,30 +446,14 @@ def run(ctx):
                 opl = int(m.group(2))
                 opslot = int(m.group(3))
                 dim, state = parse_info(m.group(5))
-                def full_lineage(line, slot, depth=0):
-                    out = []
-                    for (n, t, cs) in lineage(hist, line, slot):
-                        if not t.startswith("op "):
-                            continue
-                        out.append((n, t))
-                        tt = t.split()
-                        if tt[2] in BINARY and depth < 3 and tt[3].isdigit() and int(tt[3]) != cs:
-                            out += full_lineage(n, int(tt[3]), depth + 1)
-                    return out
-                # candidates: the operations since the last synchronising description (a semantic defect shows
-                # there), plus, on the whole lineage (arguments of binary operations included), the operations
-                # whose known defect is a *latent* corruption of the representation that still prints correctly
-                LATENT = ("remove_higher_space_dimensions",)
-                def latent(line, slot):
-                    return [(n, t) for (n, t) in full_lineage(line, slot) if api_of(t) in LATENT]
                 if m.group(4) != "-":
                     sl = int(m.group(4))
-                    cands = candidates(hist, ln, sl) + latent(ln, sl)
+                    cands = candidates(hist, ln, sl) + latent(hist, ln, sl)
                 else:
-                    cands = [(opl, J[opl - 1])] + candidates(hist, opl, opslot) + latent(opl, opslot)
+                    cands = [(opl, J[opl - 1])] + candidates(hist, opl, opslot) + latent(hist, opl, opslot)
                     if len(J[opl - 1].split()) > 3 and J[opl - 1].split()[2] in BINARY and J[opl - 1].split()[3].isdigit():
                         a = int(J[opl - 1].split()[3])
-                        cands += candidates(hist, opl, a) + latent(opl, a)
+                        cands += candidates(hist, opl, a) + latent(hist, opl, a)
                 first = None
                 for (n, t) in cands:
                     st_, tg_ = op_site_tags(hist, n, t, "", "")
@@ -513,7 +516,7 @@ def run(ctx):
                 # an operation on the lineage of the slot(s) that is known to corrupt the state?
                 hit = None
                 for sl in slots:
-                    for (n, t) in candidates(hist, ln, sl):
+                    for (n, t) in candidates(hist, ln, sl) + latent(hist, ln, sl):
                         st_, tg_ = op_site_tags(hist, n, t, "", "")
                         if is_known(st_, tg_):
                             hit = (st_, tg_, t)
